@@ -366,7 +366,11 @@ impl Future for Server {
                             match msg::decode_request(&tlv, &mut strict) {
                                 Some(req) => {
                                     this.arrival += 1;
-                                    let token = request_token(&req.op).unwrap_or_else(|| format!("#{}", this.arrival - 1));
+                                    // the request's own token if the plan knows it, otherwise its arrival index
+                                    let token = match request_token(&req.op) {
+                                        Some(t) if this.plan.by_token.contains_key(&t) || !this.plan.by_token.contains_key(&format!("#{}", this.arrival - 1)) => t,
+                                        _ => format!("#{}", this.arrival - 1),
+                                    };
                                     world::with(|w| {
                                         w.srv_ids_by_token.insert(token.clone(), req.id as i32);
                                         w.requests.push(req.clone());
